@@ -629,7 +629,7 @@ def opt_fixlen(ctx):
 # ------------------------------------------------------------------ ReProgram::new
 
 
-@rule("OPT-PROGRAM", ["C08", "C01", "C16", "C12", "C13", "C20", "C09", "C10", "C11", "C02", "C06"], floor=5)
+@rule("OPT-PROGRAM", ["C08", "C01", "C16", "C12", "C13", "C20", "C09", "C10", "C11", "C02", "C06", "C17"], floor=5)
 def opt_program(ctx):
     """ReProgram::new: prefix only from a leading Atom of the top-level Sequence, initial class only from a leading
     CharClass, OPT_HASBOL only for a leading '^'; minimum_length = operation.get_minimum_match_length();
